@@ -4,11 +4,15 @@ import os, subprocess, sys, time
 sys.path.insert(0, os.path.dirname(os.path.abspath(__file__)))
 import psvlib
 t0 = time.time()
-gen = os.path.join(psvlib.VERIF, "tools", "gen_lean.py")
-if os.path.exists(gen):
-    r = subprocess.run([sys.executable, gen])
-    if r.returncode != 0:
-        print("setup: gen_lean failed"); sys.exit(1)
+import glob
+# regenerate every source-derived Lean file (translators fail closed; a failure here is reported by the check that owns it)
+for gen in sorted(glob.glob(os.path.join(psvlib.VERIF, "tools", "gen_*.py"))):
+    r = subprocess.run([sys.executable, gen], stdout=subprocess.PIPE, stderr=subprocess.STDOUT, text=True)
+    print("setup: %s rc=%d %s" % (os.path.basename(gen), r.returncode, r.stdout.strip().splitlines()[-1][:160] if r.stdout.strip() else ""))
 r = subprocess.run(["lake", "build"], cwd=psvlib.LEAN)
 print("setup: lake build rc=%d in %.0fs" % (r.returncode, time.time() - t0))
+if r.returncode != 0:
+    # a property file that no longer builds is reported by the check of that property; setup only needs the driver
+    r = subprocess.run(["lake", "build", "psvdriver"], cwd=psvlib.LEAN)
+    print("setup: lake build psvdriver rc=%d" % r.returncode)
 sys.exit(r.returncode)
